@@ -348,6 +348,8 @@ def gen_event(rng, pool, ts_grid):
     tags = []
     if 30000 <= kind < 40000 or rng.random() < 0.15:
         tags += dtag(rng.choice(DVALS))
+        if rng.random() < 0.2:
+            tags += dtag(rng.choice(DVALS))       # a second d tag: only the first one names the address
     r = rng.random()
     if r < 0.25:
         tags.append(["t", rng.choice(["x", "y", "", "it's"])])
@@ -431,7 +433,10 @@ def c09_universe_sets(rng, tier):
             d = rng.choice(DVALS) if 30000 <= kind < 40000 else rng.choice([None, None, "a"])
             kk = kind if rng.random() < 0.85 else rng.choice([1, 10000, 30000])
             ww = who if rng.random() < 0.85 else 1 - who
-            evs.append(ev(ww, kk, rng.choice([10, 20, 20, 30]), dtag(d), content="v%d" % i))
+            dt = dtag(d)
+            if 30000 <= kind < 40000 and rng.random() < 0.25:
+                dt = dt + dtag(rng.choice(DVALS))     # a second d tag: only the first one names the address
+            evs.append(ev(ww, kk, rng.choice([10, 20, 20, 30]), dt, content="v%d" % i))
         sets.append(evs)
     return sets
 
